@@ -79,7 +79,7 @@ func (pc *poolConn) peerSend(f ws.Frame) {
 	pc.raw.Out.Write(f.Encode())
 }
 
-var poolOps = []string{"start", "start", "readPart", "readPart", "readToEOF", "readToEOF", "readAgain", "readAgain", "startWhileOpen", "peerCloseMid", "closeNow", "ctxExpireMid", "newConn", "pingMid", "dictProbe", "dictProbe"}
+var poolOps = []string{"start", "start", "readPart", "readPart", "readToEOF", "readToEOF", "readAgain", "readAgain", "startWhileOpen", "peerCloseMid", "closeNow", "ctxExpireMid", "newConn", "pingMid", "dictProbe", "dictProbe", "readWhole", "readWhole", "readWholeLimit", "readWholeCut"}
 
 func runPoolCase(rep *Report, seed int64) poolCase {
 	rng := rand.New(rand.NewSource(seed))
@@ -111,6 +111,23 @@ func runPoolCase(rep *Report, seed int64) poolCase {
 		}
 	}()
 	buf := make([]byte, 300)
+	// every slice a whole-message read handed to the application (with or without an error) is the application's: it is kept
+	// and re-inspected after every later step on any connection (WSPool!ResultsArePrivate)
+	type heldResult struct {
+		got, want []byte
+		tag       int
+		how       string
+	}
+	var held []heldResult
+	inspect := func(after string) {
+		for i := range held {
+			h := &held[i]
+			if h.got != nil && !bytes.Equal(h.got, h.want) {
+				rep.miss("bytes-returned-by-a-read-changed-afterwards", pcase, fmt.Sprintf("conn %d %s: returned %.40q, now %.40q (after %s)", h.tag, h.how, h.want, h.got, after))
+				h.got = nil
+			}
+		}
+	}
 	check := func(pc *poolConn, n int, where string) bool {
 		if n == 0 {
 			return true
@@ -260,6 +277,43 @@ func runPoolCase(rep *Report, seed int64) poolCase {
 				}
 			}
 			pc.dead = true
+		case "readWhole", "readWholeLimit", "readWholeCut":
+			// Conn.Read: the whole message, or what had arrived of it when the read failed (limit exceeded / transport ended)
+			if pc.r != nil && !pc.atEOF {
+				cancel()
+				continue
+			}
+			pc.nmsg++
+			pc.exp = poolBody(pc.tag, pc.nmsg, 700+rng.Intn(1500))
+			pc.r, pc.off, pc.atEOF = nil, 0, false
+			comp := rng.Intn(2) == 0
+			wire := pc.exp
+			if comp {
+				wire = pc.defl.Compress(pc.exp)
+			}
+			h := len(wire) / 2
+			pc.peerSend(ws.Frame{Fin: false, Rsv1: comp, Op: ws.OpBin, Payload: wire[:h]})
+			switch op {
+			case "readWhole":
+				pc.peerSend(ws.Frame{Fin: true, Op: ws.OpCont, Payload: wire[h:]})
+			case "readWholeLimit":
+				pc.c.SetReadLimit(int64(100 + rng.Intn(400)))
+				pc.peerSend(ws.Frame{Fin: true, Op: ws.OpCont, Payload: wire[h:]})
+			case "readWholeCut":
+				pc.raw.Out.CloseWrite(nil)
+			}
+			_, got, err := pc.c.Read(ctx)
+			if len(got) > len(pc.exp) || !bytes.Equal(got, pc.exp[:len(got)]) {
+				rep.miss("read-returned-bytes-not-sent-on-this-connection", pcase, fmt.Sprintf("conn %d %s: got %.50q err=%v", pc.tag, op, got, err))
+			} else if op == "readWhole" && (err != nil || len(got) != len(pc.exp)) {
+				rep.miss("message-ended-early", pcase, fmt.Sprintf("conn %d %s: %d of %d bytes, err=%v", pc.tag, op, len(got), len(pc.exp), err))
+			}
+			if len(got) > 0 {
+				held = append(held, heldResult{got: got, want: append([]byte(nil), got...), tag: pc.tag, how: fmt.Sprintf("%s (err=%v)", op, err != nil)})
+			}
+			if err != nil || op != "readWhole" {
+				pc.dead = true
+			}
 		case "closeNow":
 			pc.c.CloseNow()
 			pc.dead = true
@@ -331,6 +385,7 @@ func runPoolCase(rep *Report, seed int64) poolCase {
 			}
 		}
 		cancel()
+		inspect(op)
 	}
 	return pcase
 }
